@@ -351,3 +351,112 @@ def neox_enum(tier: str) -> list[dict[str, Any]]:
                 plans.append({'kind': 'neox_assign', 'pipe': pp,
                               'data': dp, 'model': mp, 'work': work})
     return plans
+
+
+# ---------------------------------------------------------------------------
+# hash-seed fault: every rank is its own interpreter with its own string-hash
+# seed (torchrun/mpirun/spawn); an assignment that iterates a set of layer
+# names differs between ranks only then, never inside one process.
+# ---------------------------------------------------------------------------
+
+_HASHSEED_CODE = r"""
+import json, sys, warnings
+warnings.filterwarnings('ignore')
+repo, stubs, target = sys.argv[1], sys.argv[2], sys.argv[3]
+sys.path.insert(0, stubs); sys.path.insert(0, repo)
+cfgs = json.load(sys.stdin)
+out = []
+if target == 'kaisa':
+    from kfac.assignment import KAISAAssignment
+    for c in cfgs:
+        res = {}
+        for r in c['ranks']:
+            a = KAISAAssignment(c['work'], local_rank=r, world_size=c['world'],
+                                grad_worker_fraction=c['k'] / c['world'],
+                                group_func=lambda ranks: None,
+                                colocate_factors=c['colocate'])
+            res[r] = {l: [a.inv_worker(l, f) for f in sorted(c['work'][l])]
+                      + [a.src_grad_worker(l), a.is_grad_worker(l)]
+                      for l in sorted(c['work'])}
+        out.append(res)
+else:
+    import torch.distributed as dist
+    dist.new_group = lambda *a, **k: None
+    from deepspeed.runtime.pipe.topology import PipeModelDataParallelTopology
+    from kfac.gpt_neox.assignment import GPTNeoXAssignment
+    for c in cfgs:
+        topo = PipeModelDataParallelTopology(num_pp=c['pipe'], num_mp=c['model'], num_dp=c['data'])
+        res = {}
+        for r in range(c['pipe'] * c['data'] * c['model']):
+            w = c['work'][str(topo.get_coord(r).pipe)]
+            a = GPTNeoXAssignment(w, local_rank=r, topology=topo,
+                                  data_parallel_group=None, model_parallel_group=None)
+            res[r] = {l: [a.inv_worker(l, 'A'), a.factor_worker(l, 'A'),
+                          a.src_grad_worker(l), a.is_grad_worker(l)]
+                      for l in sorted(w)}
+        out.append(res)
+print(json.dumps(out, sort_keys=True))
+"""
+
+
+def check_hashseed(plan: dict[str, Any], bad: Any, stats: Any) -> None:
+    import json
+    import os
+    import subprocess
+    import sys
+
+    from simkfac.runner import REPO, VERIF
+
+    outs = {}
+    for hs in plan['hashseeds']:
+        env = dict(os.environ, PYTHONHASHSEED=str(hs))
+        pr = subprocess.run(
+            [sys.executable, '-c', _HASHSEED_CODE, REPO,
+             os.path.join(VERIF, 'stubs'), plan['target']],
+            input=json.dumps(plan['configs']), capture_output=True,
+            text=True, env=env, timeout=300)
+        if pr.returncode != 0:
+            bad(f'{plan["prop"]}.query_raised', hashseed=hs,
+                error=pr.stderr[-600:])
+            return
+        outs[hs] = json.loads(pr.stdout.strip().splitlines()[-1])
+        stats['hashseed_interpreters'] += 1
+    base_hs = plan['hashseeds'][0]
+    for hs in plan['hashseeds'][1:]:
+        for i, (a, b) in enumerate(zip(outs[base_hs], outs[hs])):
+            stats['hashseed_comparisons'] += 1
+            if a != b:
+                diff = [(r, l) for r in a for l in a[r]
+                        if a[r][l] != b.get(r, {}).get(l)]
+                bad(f'{plan["prop"]}.assignment_depends_on_hash_seed',
+                    config=i, hashseeds=[base_hs, hs], first=diff[:4],
+                    world=plan['configs'][i].get('world'))
+                break
+
+
+def hashseed_plans(target: str) -> list[dict[str, Any]]:
+    rng = random.Random(4242)
+    names = [f'block.{i}.{p}' for i in range(6)
+             for p in ('attn', 'mlp.fc', 'mlp.proj')] + ['embed', 'head']
+    cfgs = []
+    if target == 'kaisa':
+        for W, k in ((4, 2), (4, 4), (6, 3), (8, 2), (3, 1)):
+            for colocate in (True, False):
+                layers = rng.sample(names, rng.randint(4, 12))
+                # many exact ties between layers, as in repeated blocks
+                work = {n: {'A': float(rng.choice([8, 8, 27])),
+                            'G': float(rng.choice([8, 27, 27]))}
+                        for n in layers}
+                cfgs.append({'world': W, 'k': k, 'colocate': colocate,
+                             'work': work, 'ranks': list(range(W))})
+        return [{'kind': 'hashseed', 'target': 'kaisa', 'prop': 'C06',
+                 'hashseeds': [0, 1, 12345, 987654321], 'configs': cfgs}]
+    for pp, dp, mp in ((1, 2, 2), (2, 2, 1), (2, 2, 2), (1, 4, 1)):
+        work = {}
+        for s_ in range(pp):
+            layers = rng.sample(names, rng.randint(3, 8))
+            work[str(s_)] = {f'{s_}.{n}': {'A': float(rng.choice([8, 8, 27])),
+                                          'G': 8.0} for n in layers}
+        cfgs.append({'pipe': pp, 'data': dp, 'model': mp, 'work': work})
+    return [{'kind': 'hashseed', 'target': 'neox', 'prop': 'C12',
+             'hashseeds': [0, 1, 12345, 987654321], 'configs': cfgs}]
